@@ -192,6 +192,11 @@ class ModelWorld(object):
         o['mechR'].fix_parameters({'central.size': 1.3})
         o['mechT'] = chi.ReducedMechanisticModel(ToyModel(3, 2))
         o['mechT'].fix_parameters({'p1': 0.8})
+        # a covariate population model evaluated through ONE covariate array that
+        # the caller refills before every call
+        o['popCov'] = chi.CovariatePopulationModel(
+            chi.GaussianModel(), chi.LinearCovariateModel(n_cov=1))
+        self.cov_buf = np.zeros((2, 1))
         self.obj = o
 
 
@@ -206,6 +211,9 @@ MODEL_POINTS = {
               ([0.4, 1.2, 0.8, 0.3], [[0.3, 1.0], [0.9, 1.4]])],
     'popTGR': [([1.0, 0.7, 0.5], [[1.1, 0.4], [0.6, 0.9]]),
                ([0.4, 1.2, 0.8], [[0.3, 1.0], [0.9, 1.4]])],
+    # (equal parameters, other covariates)
+    'popCov': [([1.0, 0.5, 0.3, 0.2], [[1.2], [0.9]], [[0.4], [1.1]]),
+               ([1.0, 0.5, 0.3, 0.2], [[1.2], [0.9]], [[2.0], [0.1]])],
     'popH': [([1.0, 2.0, 3.0, 4.0], [[1.0, 2.0], [3.0, 4.0]]),
              ([0.5, 0.6, 0.7, 0.8], [[0.5, 0.6], [0.7, 0.8]])],
     # error models: (parameters, model output, observations)
@@ -256,6 +264,16 @@ class ErrWorld(object):
         c.set_log_prior(pints.ComposedLogPrior(*[
             pints.UniformLogPrior(0, 10) for _ in range(c.get_n_parameters())]))
         self.obj['ctrlR'] = c
+        # one posterior predictive model asked for several individuals in turn
+        import xarray as xr
+        arr = lambda off: off + 0.01 * np.arange(12).reshape(2, 3, 2)  # noqa: E731
+        ds = xr.Dataset(
+            {'p0': (('chain', 'draw', 'individual'), arr(1.0) * [[[1.0, 40.0]]]),
+             'p1': (('chain', 'draw', 'individual'), arr(0.5)),
+             'Sigma': (('chain', 'draw', 'individual'), arr(0.2))},
+            coords={'chain': [0, 1], 'draw': [0, 1, 2], 'individual': ['a', 'b']})
+        self.obj['ppm'] = chi.PosteriorPredictiveModel(
+            chi.PredictiveModel(ToyModel(2, 1), [chi.GaussianErrorModel()]), ds)
 
 
 ERR_POINTS = [np.array([0.9, 0.6, 0.4, 0.25]), np.array([1.3, 0.4, 0.7, 0.15])]
@@ -272,6 +290,8 @@ def err_ops():
         ops.append(['x_names', 'ctrl' + code, 0])
         ops.append(['x_getpost', 'ctrl' + code, 1])
         ops.append(['mut_xren', code, 0])
+    for who in ('a', 'b'):
+        ops.append(['x_pp', 'ppm:' + who, 3])
     return ops
 
 
@@ -289,6 +309,10 @@ def apply_err(world, op):
         em.set_parameter_names(['user name %d' % i
                                 for i in range(em.n_parameters())])
         return ['mutated'], True
+    if kind == 'x_pp':
+        df = world.obj['ppm'].sample([0.4, 1.2], n_samples=2,
+                                     individual=name.split(':')[1], seed=k)
+        return [df['Value'].to_numpy(dtype=float)], True
     o = world.obj[name]
     if kind == 'x_names':
         names = list(o.get_parameter_names())
@@ -321,7 +345,9 @@ def model_ops():
     ops = []
     for name in MODEL_POINTS:
         for k in (0, 1):
-            if name.startswith('pop'):
+            if name == 'popCov':
+                kinds = ('m_ll', 'm_sens', 'm_psi')
+            elif name.startswith('pop'):
                 kinds = ('m_ll', 'm_sens', 'm_psi', 'm_sample')
             elif name.startswith('err'):
                 kinds = ('e_ll', 'e_pw', 'e_sens', 'e_sample')
@@ -337,6 +363,17 @@ def apply_model(world, op):
     o = world.obj[name]
     args = [np.array(a, dtype=float) for a in MODEL_POINTS[name][k]]
     before = [a.copy() for a in args]
+    if name == 'popCov':
+        world.cov_buf[...] = args[2]
+        kw = {'covariates': world.cov_buf}
+        if kind == 'm_ll':
+            r = [o.compute_log_likelihood(args[0], args[1], **kw)]
+        elif kind == 'm_sens':
+            r = list(o.compute_sensitivities(args[0], args[1], **kw))
+        else:
+            r = [o.compute_individual_parameters(args[0], args[1], **kw)]
+        return r, all(np.array_equal(a, b) for a, b in zip(args, before)) and \
+            np.array_equal(world.cov_buf, args[2])
     if kind == 'm_ll':
         r = [o.compute_log_likelihood(args[0], args[1])]
     elif kind == 'm_sens':
